@@ -420,7 +420,7 @@ def spectrum_checks(dadi, fs, ns, pts, judge_sign=True):
     data = np.asarray(fs.data, dtype=float); mask = np.ma.getmaskarray(fs)
     vals = data[~mask]
     if not np.all(np.isfinite(vals)): out.append(('nonfinite', '%d non-finite entries' % int(np.sum(~np.isfinite(vals)))))
-    elif judge_sign and vals.size and vals.min() < -1e-12 * max(1.0, float(np.abs(vals).max())):
+    elif judge_sign and vals.size and vals.min() < -1e-6 * float(np.abs(vals).max()):      # entries that are 0 up to the solver noise may come out as -1e-8
         out.append(('negative', 'entry %r < 0 (largest entry %r)' % (float(vals.min()), float(vals.max()))))
     xx1 = float(dadi.Numerics.default_grid(pts)[1])
     ex = getattr(fs, 'extrap_x', None)
